@@ -22,7 +22,10 @@ func sortAttachments(line string) string {
 		for _, m := range reOneAtt.FindAllStringSubmatch(list, -1) {
 			items = append(items, m[1])
 		}
-		sort.Strings(items)
+		// by kind only, and stable: several attachments of one kind (allowed on global objects) keep their
+		// order, which LLVM preserves and which is part of the module
+		kind := func(s string) string { return s[:strings.IndexByte(s, ' ')] }
+		sort.SliceStable(items, func(i, j int) bool { return kind(items[i]) < kind(items[j]) })
 		return sep + strings.Join(items, sep)
 	}
 	if m := reDeclAtt.FindStringSubmatchIndex(line); m != nil {
